@@ -192,7 +192,7 @@ package fsnotify
 
 //@ func (w *kqueue) sendCreateIfNew(path string, fi os.FileInfo) (err error)
 //@   requires KWf(w) && nolocks() && token(reader) && !closed(w.Events) && !closed(w.Errors)
-//@   requires filepath.Clean(path) == path
+//@   requires filepath.Clean(path) == path                                                                                     [C18 C17] "an entry is looked up, watched and reported under its cleaned path: the form the seen marks and the tables are keyed by (for a directory watched as . or / a plain concatenation is not that form)"
 //@   ensures KWf(w)
 //@   ensures nolocks() && Recorded(w) && !closed(w.Events) && !closed(w.Errors)                                                [C17]
 //@   ensures old(has(w.watches.seen, path)) ==> hist(w.Events) == old(hist(w.Events))                                          [C18] "an entry that has been seen is not reported as created again"
